@@ -19,11 +19,19 @@ class ExtractError(Exception):
 
 
 # ---------------------------------------------------------------- stub headers + preprocessing
+import threading
 _stub_cache = {}
+_stub_lock = threading.Lock()
+_pp_lock = threading.Lock()
 
 
 def make_stub_dirs(scratch):
     """(re)create the stub include directories from the include lines of /repo's current tree"""
+    with _stub_lock:      # units run in parallel threads: the stub directory must be complete before anyone preprocesses
+        return _make_stub_dirs(scratch)
+
+
+def _make_stub_dirs(scratch):
     if scratch in _stub_cache:
         return _stub_cache[scratch]
     sysd = os.path.join(scratch, 'stub_sys')
